@@ -1,17 +1,8 @@
 INIT Init
 NEXT Next
 CONSTANTS
-  Signs <- Both
-  Sigs <- SigCover
-  Exps <- ExpCover
-  Precs = {1, 2}
-  UncSigs <- USigCover
-  UncOffs = {1, 3}
-  UncPrecs = {1, 2}
-  Units = {"m/s"}
-  Convs <- ConvTwo
-  UncSrcs = {"arg", "attr"}
-  RomanMax = 30
+  SliceTable <- AllSlices
+  SliceNames = {"cover"}
 INVARIANT TypeOK
 INVARIANT RoundCarries
 INVARIANT ModelNumberDenotes
